@@ -131,6 +131,7 @@ impl Oracle for SerdeOracle {
 					if live.get_latest_update_id() == m1.get_latest_update_id() && live.current_best_block() == m1.current_best_block() {
 						if *live != m1 {
 							let fields = live.verif_diff_fields(&m1);
+							crate::runner::witness(&format!("c12-live-differs:{:?}", fields));
 							// events handed to the manager (or the user) after the write are not a round-trip matter
 							let drained_only = fields.iter().all(|f| matches!(*f, "pending_monitor_events" | "pending_events" | "is_processing_pending_events"));
 							if drained_only {
